@@ -17,6 +17,7 @@ from ..gamedata import circuit_reach, proto, tile_extent
 from ..pipeline import param_with_default
 from ..sites import guard_chain
 from .c18 import pole_config
+from .util import canon, cguards, dict_of
 
 
 def run(repo: Repo, rep: Report, tier: str) -> None:
@@ -44,7 +45,15 @@ def run(repo: Repo, rep: Report, tier: str) -> None:
     rep.check(ok, "C08-R1", "interval sizes are the entity's footprint", "; ".join(norm(c)[:60] for c in ivs), ano.loc())
     no = calls_in(ano.node, "AddNoOverlap2D")
     pm = parents_map(ano.node)
-    ok = len(no) == 1 and not any(isinstance(pm.get(x), (ast.If,)) for x in [no[0]]) and [norm(a) for a in no[0].args] == ["x_intervals", "y_intervals"]
+    def _interval_list(a: ast.AST) -> bool:
+        # a local list that receives NewFixedSizeIntervalVar results
+        if not isinstance(a, ast.Name):
+            return False
+        for v, how, _st in du.defs.get(a.id, []):
+            if how == "elem-add" and any(isinstance(x, ast.Call) and call_name(x) == "NewFixedSizeIntervalVar" for e in [v] + du.expand(v) for x in ast.walk(e)):
+                return True
+        return False
+    ok = len(no) == 1 and not any(isinstance(pm.get(x), (ast.If,)) for x in [no[0]]) and len(no[0].args) == 2 and all(_interval_list(a) for a in no[0].args) and norm(no[0].args[0]) != norm(no[0].args[1])
     st = no[0] if no else None
     while st is not None and not isinstance(st, ast.stmt):
         st = pm[st]
@@ -115,27 +124,33 @@ def run(repo: Repo, rep: Report, tier: str) -> None:
     rsig = repo.func("RelayNetwork.route_signal")
     pmr = parents_map(rsig.node)
     empties = [n for n in walk_local(rsig.node) if isinstance(n, ast.Return) and isinstance(n.value, ast.List) and not n.value.elts]
-    ok = bool(empties) and all(any(norm(t) == "distance <= self.span_limit" and pol for t, pol in guard_chain(rsig, e, pmr)) for e in empties)
+    ok = bool(empties) and all(any(t == "math.dist(source_pos, sink_pos) <= self.span_limit" and pol for t, pol in cguards(rsig, e)) for e in empties)
     rep.check(ok, "C08-R3", "`no relay needed` is answered only when the endpoints are within the limit", "return [] under distance <= self.span_limit", rsig.loc())
     sl = repo.func("RelayNetwork.span_limit")
     rs_ = [n for n in walk_local(sl.node) if isinstance(n, ast.Return)]
     rep.check(bool(rs_) and norm(rs_[0].value) in ("float(self.max_span)", "self.max_span"), "C08-R3", "span_limit is the configured span, not enlarged", norm(rs_[0].value) if rs_ else "", sl.loc())
     pcr = repo.func("RelayNetwork._plan_and_create_relay_path")
     pmp = parents_map(pcr.node)
-    apps = [c for c in calls_in(pcr.node, "append") if norm(c.func) == "path.append"]
+    cpcr = canon(pcr)
+    returned = {norm(n.value) for n in walk_local(pcr.node) if isinstance(n, ast.Return) and isinstance(n.value, ast.Name)}
+    apps = [c for c in calls_in(pcr.node, "append") if isinstance(c.func, ast.Attribute) and norm(c.func.value) in returned]
     cfgp = CFG(pcr.node)
-    hop_checks = [s for s in cfgp.stmts() if isinstance(s, ast.If) and norm(s.test) == "relay_dist > span_limit" and s.body and isinstance(s.body[-1], ast.Return)]
+    def _over_limit(t: ast.AST) -> bool:
+        return isinstance(t, ast.Compare) and len(t.ops) == 1 and isinstance(t.ops[0], ast.Gt) and cpcr.text(t.comparators[0]) == "span_limit" and cpcr.text(t.left).startswith("math.dist(")
+    hop_checks = [s for s in cfgp.stmts() if isinstance(s, ast.If) and _over_limit(s.test) and s.body and isinstance(s.body[-1], ast.Return) and (s.body[-1].value is None or norm(s.body[-1].value) == "None")]
     ok = bool(apps) and bool(hop_checks)
     if ok:
         st = apps[0]
         while not isinstance(st, ast.stmt):
             st = pmp[st]
-        ok = cfgp.dominates(hop_checks[0], st)
-    rep.check(ok, "C08-R3", "each relay hop is checked against the limit before it is appended", "relay_dist > span_limit -> fail dominates path.append", pcr.loc())
-    fins = [s for s in cfgp.stmts() if isinstance(s, ast.If) and norm(s.test) == "final_dist > span_limit"]
-    rep.check(bool(fins), "C08-R3", "the last hop to the sink is checked against the limit", "final_dist > span_limit -> fail" if fins else "missing", pcr.loc())
+        ok = any(cfgp.dominates(h, st) for h in hop_checks)
+    rep.check(ok, "C08-R3", "each relay hop is checked against the limit before it is appended", "dist(hop) > span_limit -> fail dominates the append to the returned path", pcr.loc())
+    fins = [h for h in hop_checks if apps and not cfgp.dominates(h, st)] if ok else []
+    rep.check(bool(fins), "C08-R3", "the last hop to the sink is checked against the limit", "dist(last relay, sink) > span_limit -> fail" if fins else "missing", pcr.loc())
     astar = repo.func("RelayNetwork._find_path_through_existing_relays")
-    ok = any(isinstance(n, ast.If) and norm(n.test) == "dist > span_limit" and isinstance(n.body[-1], ast.Continue) for n in walk_local(astar.node))
+    cast = canon(astar)
+    ok = any(isinstance(n, ast.If) and isinstance(n.test, ast.Compare) and isinstance(n.test.ops[0], ast.Gt) and cast.text(n.test.comparators[0]) == "span_limit" and cast.text(n.test.left).startswith("math.dist(")
+             and isinstance(n.body[-1], ast.Continue) for n in walk_local(astar.node))
     rep.check(ok, "C08-R3", "existing-relay search only follows hops within the limit", "dist > span_limit -> skip" if ok else "missing", astar.loc())
 
     # ---------------- R4 ---------------------------------------------------------------
@@ -143,10 +158,12 @@ def run(repo: Repo, rep: Report, tier: str) -> None:
     mc = repo.func("BlueprintEmitter._materialize_connections")
     cfgm = CFG(mc.node)
     adds = [s for s in cfgm.stmts() if not isinstance(s, (ast.If, ast.For, ast.Try)) and any(call_name(c) == "add_circuit_connection" for c in calls_in(s))]
-    guards = [s for s in cfgm.stmts() if isinstance(s, ast.If) and norm(s.test) == "source is None or sink is None" and isinstance(s.body[-1], ast.Continue)]
+    cmc = canon(mc)
+    guards = [s for s in cfgm.stmts() if isinstance(s, ast.If) and cmc.text(s.test) == "entity_map.get(ELEM(layout_plan.wire_connections).source_entity_id) is None or entity_map.get(ELEM(layout_plan.wire_connections).sink_entity_id) is None" and isinstance(s.body[-1], ast.Continue)]
     rep.check(bool(adds) and bool(guards) and all(cfgm.dominates(guards[0], a) for a in adds), "C08-R4", "a wire with a missing endpoint is never materialised", "missing endpoint -> continue dominates add_circuit_connection", mc.loc())
     kw = [n for n in walk_local(mc.node) if isinstance(n, ast.Dict) and any(isinstance(k, ast.Constant) and k.value == "color" for k in n.keys)]
-    ok = bool(kw) and dict(zip([k.value for k in kw[0].keys], [norm(v) for v in kw[0].values])) == {"color": "connection.wire_color", "entity_1": "source", "entity_2": "sink"}
+    W = "ELEM(layout_plan.wire_connections)"
+    ok = bool(kw) and dict_of(kw[0], cmc) == {"color": f"{W}.wire_color", "entity_1": f"entity_map.get({W}.source_entity_id)", "entity_2": f"entity_map.get({W}.sink_entity_id)"}
     rep.check(ok, "C08-R4", "both ends use the wire's single colour and the looked-up entities", norm(kw[0]) if kw else "", mc.loc())
     wc = repo.cls("WireConnection")
     cols = [st.target.id for st in wc.node.body if isinstance(st, ast.AnnAssign) and "color" in st.target.id]
@@ -161,31 +178,34 @@ def run(repo: Repo, rep: Report, tier: str) -> None:
     n_ax = 0
 
     def axis_of(e: ast.AST) -> set[int]:
+        """Axes an (alpha-normalised) expression reads: constant subscripts 0/1 of position/footprint/tile values and tile_width/height."""
         out: set[int] = set()
         for x in ast.walk(e):
-            if isinstance(x, ast.Subscript) and isinstance(x.slice, ast.Constant) and isinstance(x.slice.value, int) and x.slice.value in (0, 1) and any(k in norm(x.value) for k in ("position", "footprint", "pos", "tile")):
+            if isinstance(x, ast.Subscript) and isinstance(x.slice, ast.Constant) and isinstance(x.slice.value, int) and not isinstance(x.slice.value, bool) and x.slice.value in (0, 1) \
+                    and any(k in norm(x.value) for k in ("position", "footprint", "pos", "tile")):
                 out.add(x.slice.value)
-            if isinstance(x, ast.Name):
-                if x.id.endswith("_x") or x.id in ("x", "width", "tile_x", "center_x", "footprint_w"):
-                    out.add(0)
-                if x.id.endswith("_y") or x.id in ("y", "height", "tile_y", "center_y", "footprint_h"):
-                    out.add(1)
+            if isinstance(x, ast.Attribute) and x.attr == "tile_width":
+                out.add(0)
+            if isinstance(x, ast.Attribute) and x.attr == "tile_height":
+                out.add(1)
         return out
 
     for f in repo.all_funcs():
         if ".layout." not in f.module.name + ".":
             continue
+        cf_ = None
         for n in walk_local(f.node):
             if isinstance(n, ast.BinOp) and isinstance(n.op, (ast.Add, ast.Sub)):
-                rt = norm(n.right)
-                if not any(k in rt for k in ("footprint", "width", "height")):
+                cf_ = cf_ or canon(f)
+                ln, rn_ = cf_.node(n.left), cf_.node(n.right)
+                if "footprint" not in norm(rn_):
                     continue
-                la, ra = axis_of(n.left), axis_of(n.right)
+                la, ra = axis_of(ln), axis_of(rn_)
                 if len(la) != 1 or len(ra) != 1:
                     continue
                 n_ax += 1
-                rep.check(la == ra, "C08-R5", f"{f.short}: `{norm(n)[:60]}` uses one axis", "axes agree" if la == ra else "x/y crossed", f.loc(n))
-    rep.floor("C08-R5", "axis-indexed footprint expressions", n_ax, 6)
+                rep.check(la == ra, "C08-R5", f"{f.short}: `{norm(n)[:60]}` uses one axis", "axes agree" if la == ra else f"x/y crossed: {norm(ln)[-50:]} with {norm(rn_)[-60:]}", f.loc(n))
+    rep.floor("C08-R5", "axis-indexed footprint expressions", n_ax, 10)
 
     # ---------------- R6 ---------------------------------------------------------------
     rep.rule("C08-R6", "relay poles never join two circuit networks: network ids are distinct per (source, colour) and a relay is reused only for its own network (shared with C12-R1/R2)")
@@ -200,5 +220,6 @@ def run(repo: Repo, rep: Report, tier: str) -> None:
     rep.check(ok, "C08-R6", "every (source, colour) network gets its own id", "counter advances with each new key" if ok else "ids are not distinct: relays would be shared between networks", cni.loc())
     rn = repo.cls("RelayNode").methods["can_route_network"]
     ret = [n for n in walk_local(rn.node) if isinstance(n, ast.Return)]
-    rep.check(bool(ret) and norm(ret[0].value) in ("len(networks) == 0 or network_id in networks", "not networks or network_id in networks"), "C08-R6",
+    N_ = "self.networks_red if wire_color == 'red' else self.networks_green"
+    rep.check(bool(ret) and canon(rn).text(ret[0].value) in (f"len({N_}) == 0 or network_id in ({N_})", f"not ({N_}) or network_id in ({N_})"), "C08-R6",
               "a relay carries a network only if the colour is free or already carries it", norm(ret[0].value) if ret else "", rn.loc())
